@@ -3,8 +3,13 @@ package props
 import (
 	"encoding/json"
 	"fmt"
+	"os"
+	"path/filepath"
 	"strings"
 	"testing"
+	"time"
+
+	"github.com/xinchentechnote/fin-protoc/verifharness/cli"
 
 	"github.com/xinchentechnote/fin-protoc/verifharness/dsl"
 	"github.com/xinchentechnote/fin-protoc/verifharness/inproc"
@@ -198,9 +203,11 @@ func nestedInline(toks []dsl.Tok) bool {
 // ---------- C09: formatting changes layout only ----------
 
 type c09Case struct {
+	// FileMode: also run `format -f` on a file holding the text (through the built CLI)
+	FileMode bool     `json:"file_mode,omitempty"`
 	Text    string   `json:"text"`
-	Sites   []string `json:"sites,omitempty"` // grammatical position class of each comment, in order
-	Invalid string `json:"invalid,omitempty"` // mutation class when the text is invalid by construction
+	Sites   []string `json:"sites,omitempty"`   // grammatical position class of each comment, in order
+	Invalid string   `json:"invalid,omitempty"` // mutation class when the text is invalid by construction
 }
 
 // normTokens drops the purely optional separators: ';' and the ',' after a match pair.
@@ -222,6 +229,22 @@ func evalC09(k c09Case) []pbt.Violation {
 	out, err, pmsg, _ := inproc.Format(k.Text)
 	if pmsg != "" {
 		return nil // C11
+	}
+	if k.FileMode && cli.Bin() != "" {
+		dir := cli.Scratch("c09f")
+		fp := filepath.Join(dir, "f.dsl")
+		_ = os.WriteFile(fp, []byte(k.Text), 0o644)
+		r := cli.Run(dir, 60*time.Second, nil, nil, cli.Bin(), "format", "-f", fp)
+		after, _ := os.ReadFile(fp)
+		os.RemoveAll(dir)
+		switch {
+		case err == nil && (r.Exit != 0 || string(after) != out):
+			return []pbt.Violation{{Signature: "file-mode-differs", Detail: fmt.Sprintf("`format -f` (exit %d) left %q in the file; formatting the same text gives %q", r.Exit, clip(string(after), 200), clip(out, 200))}}
+		case err != nil && string(after) != k.Text:
+			return []pbt.Violation{{Signature: "file-mode-touches-file-on-error", Detail: "the file was changed although the text has a syntax error"}}
+		case err != nil && r.Exit == 0:
+			return []pbt.Violation{{Signature: "file-mode-exit0-on-error", Detail: "exit status 0 on a syntax error"}}
+		}
 	}
 	if k.Invalid != "" {
 		var vs []pbt.Violation
@@ -502,6 +525,10 @@ func TestC09(t *testing.T) {
 		mode := dsl.AnywhereComments
 		tc := genText(rt, c, mode, rapid.Bool().Draw(rt, "wild"), avoid)
 		k := c09Case{Text: tc.Text, Sites: tc.Sites}
+		if rapid.IntRange(0, 11).Draw(rt, "file_mode") == 0 && !strings.Contains(tc.Text, "\x00") {
+			k.FileMode = true
+			c.Class("file-mode-through-cli")
+		}
 		if rapid.IntRange(0, 4).Draw(rt, "make_invalid") == 0 {
 			k.Text, k.Invalid = invalidate(rt, tc.Toks, tc.Text)
 			k.Sites = nil
